@@ -84,7 +84,7 @@ def histories(ctx, rng, quick):
     ctx.cov["tlc_tours"] = len(tours)
     ctx.cov["tlc_walks"] = nw
     nl = 0
-    for (n, nk, mm, cnt) in ([(300, 20, 2, 6), (800, 14, 4, 3), (150, 40, 1, 6)] if quick else [(500, 20, 2, 60), (2000, 14, 4, 20), (5000, 20, 3, 6), (300, 40, 1, 60)]):
+    for (n, nk, mm, cnt) in ([(300, 20, 2, 6), (800, 14, 4, 3), (150, 40, 1, 6)] if quick else [(500, 20, 2, 40), (1500, 14, 4, 10), (3000, 20, 3, 3), (300, 40, 1, 40)]):
         for _ in range(cnt):
             lines.append(long_history(rng, n, nk, mm))
             nl += 1
